@@ -36,6 +36,21 @@ class P(C07):
         base = os.path.join(work, "net"); os.makedirs(base, exist_ok=True)
         root = netprobe.make_root(base)
         done, hist_samples = 0, []
+        # what a server that has seen nothing answers to short valid requests: after any history the answers must be these
+        import re
+        def canon(raw):
+            return None if raw is None else re.sub(rb"(Date-Unix-Epoch-Nanos|Last-Modified-Unix-Epoch-Nanos): [^\r\n]*", rb"\1: ", raw)
+        follow = [netprobe.VALID, b"POST /form-url-encoded-enctype-post-method HTTP/1.1\r\nContent-Type: application/x-www-form-urlencoded\r\n\r\nkey=value",
+                  b"GET /form-get-method?k=v HTTP/1.1\r\n\r\n"]
+        ref = None
+        try:
+            f0 = netprobe.Server(exe, root, threads=1)
+            try:
+                ref = [canon(f0.request(r)) for r in follow]
+            finally:
+                f0.stop()
+        except Exception as e:
+            notes.append("campaign: reference answers unavailable (%s)" % e)
         for h in range(nh):
             N = rnd.choice([1, 2, 2, 3, 4])
             L = rnd.choice([1, 3, 8, 20]) if tier == "quick" else rnd.choice([1, 5, 20, 60, 150, 300])
@@ -67,6 +82,19 @@ class P(C07):
                 if res != "ok":
                     fails.append(("history of %d connections on -t=%d" % (len(hist), N), "after-history-%s" % res, None,
                                   {"history": hist, "threads": N, "probe": res, "how": "tools/netprobe.py: Server(exe, root, threads=N); each kind in order; capacity_probe"}))
+                if res == "ok" and ref is not None:
+                    # "still answers a following valid request correctly": the same bytes as a server without a history (asked twice per request: every worker)
+                    for r, want in zip(follow, ref):
+                        for _ in range(2 * N):
+                            got = canon(s.request(r, timeout=5.0))
+                            if got != want and got:
+                                fails.append(("after a history of %d connections on -t=%d a valid request is answered differently from a server without a history" % (len(hist), N),
+                                              "after-history-answer-differs", None,
+                                              {"history": hist, "threads": N, "request": r[:200].decode("latin-1"), "expected_tail": (want or b"")[-200:].decode("latin-1"), "received_tail": (got or b"")[-200:].decode("latin-1")}))
+                                break
+                        else:
+                            continue
+                        break
                 done += 1
                 if len(hist_samples) < 3:
                     hist_samples.append({"threads": N, "history": hist[:12], "probe": res})
